@@ -28,6 +28,7 @@ type Built struct {
 	Status  string
 	Problem string
 	Modes   [][]uint32
+	Extra   map[string][]int64 // tables a refactored template declares besides the mode tables
 	DFAs    map[string]*mode.Mode
 	// ModeCountProblem: number of emitted mode tables differs from the number of declared modes.
 	ModeCountProblem string
@@ -121,6 +122,12 @@ func BuildText(ws *pipe.Workspace, loxFiles map[string]string, s *lexref.Spec) *
 		}
 		b.Modes = append(b.Modes, u)
 	}
+	for _, n := range lp.ExtraTables() {
+		if b.Extra == nil {
+			b.Extra = map[string][]int64{}
+		}
+		b.Extra[n] = lp.Tables[n]
+	}
 	b.DFAs = r.V.Modes
 	b.C = lexref.Compile(s)
 	if b.C.Err != "" {
@@ -139,7 +146,12 @@ func BuildText(ws *pipe.Workspace, loxFiles map[string]string, s *lexref.Spec) *
 	return b
 }
 
-func (b *Built) Install(c *ctypes.Carrier) { c.SetLexerTables(b.Modes) }
+func (b *Built) Install(c *ctypes.Carrier) {
+	c.SetLexerTables(b.Modes)
+	for n, v := range b.Extra {
+		c.SetExtraTable(n, v)
+	}
+}
 
 // ---------------------------------------------------------------------------
 // Events.
